@@ -11,8 +11,10 @@
    Notation as in Properties/C04.v.  Every unmarshaller of the model returns
    (error, value of the target afterwards) given the target's value before.
    encoding/json enters only as two functions jenc/jdec (json.Marshal of a Go
-   string, json.Unmarshal into a *string) with the single law
-   jdec (jenc s) = Some s  (Section variables, not axioms).
+   string, json.Unmarshal into a *string).  Rejection and acceptance are proved
+   for an ARBITRARY decoder; only the round trip assumes that decoding inverts
+   encoding, and only on the declared names (identifiers, on which the real
+   library does; it does not on arbitrary byte strings such as "\xff").
    All statements: every package of the grammar, every string, every x : Z. *)
 From Coq Require Import List ZArith Bool String.
 From Shoot Require Import Model.Enum Proofs.EnumTables Proofs.EnumProofs Corr.EnumCorr Proofs.EnumPb.
@@ -29,25 +31,36 @@ Theorem C12_declared_name_means : forall p T s,
 Proof. intros p T s. exact (iff_refl _). Qed.
 Print Assumptions C12_declared_name_means.
 
-(* -json: marshals to the quoted name, round trip, non-string JSON and unknown
-   names are errors that leave the target unchanged, a declared name is accepted *)
-Theorem C12_json_codec :
-  forall (jenc : string -> string) (jdec : string -> option string),
-  (forall s, jdec (jenc s) = Some s) ->
-  forall p T fl g tgt,
+(* -json, for ANY decoder jdec: non-string JSON (decoder error) and any string that
+   is no declared name -- in particular the empty string that `null` decodes to --
+   are errors that leave the target unchanged; a declared name (alias included)
+   is accepted *)
+Theorem C12_json_decode : forall (jdec : string -> option string) p T fl g tgt,
   enum_guard p T = true -> generate p T fl = Some g ->
-  (forall n v, In (n, v) (declared T p) ->
-     (exists n1, first_name (declared T p) v = Some n1
-                 /\ marshal_json (const_env p) g jenc v = jenc (trim_prefix n1 T))
-     /\ unmarshal_json (const_env p) g jdec (marshal_json (const_env p) g jenc v) tgt = (None, v))
-  /\ (forall data, jdec data = None ->
-        unmarshal_json (const_env p) g jdec data tgt = (Some ENotString, tgt))
+  (forall data, jdec data = None ->
+      unmarshal_json (const_env p) g jdec data tgt = (Some ENotString, tgt))
   /\ (forall data s, jdec data = Some s -> ~ declared_name p T s ->
+        unmarshal_json (const_env p) g jdec data tgt = (Some ENotFound, tgt))
+  /\ (forall data, jdec data = Some "" ->
         unmarshal_json (const_env p) g jdec data tgt = (Some ENotFound, tgt))
   /\ (forall data n v, jdec data = Some (trim_prefix n T) -> In (n, v) (declared T p) ->
         unmarshal_json (const_env p) g jdec data tgt = (None, v)).
-Proof. exact P_json_codec. Qed.
-Print Assumptions C12_json_codec.
+Proof. exact P_json_decode. Qed.
+Print Assumptions C12_json_decode.
+
+(* -json round trip: MarshalJSON c = jenc (first declared name of c's value) and
+   UnmarshalJSON (MarshalJSON c) = c, provided the decoder inverts the encoder ON
+   THE DECLARED NAMES *)
+Theorem C12_json_roundtrip :
+  forall (jenc : string -> string) (jdec : string -> option string) p T fl g tgt,
+  enum_guard p T = true -> generate p T fl = Some g ->
+  (forall n v, In (n, v) (declared T p) -> jdec (jenc (trim_prefix n T)) = Some (trim_prefix n T)) ->
+  forall n v, In (n, v) (declared T p) ->
+    (exists n1, first_name (declared T p) v = Some n1
+                /\ marshal_json (const_env p) g jenc v = jenc (trim_prefix n1 T))
+    /\ unmarshal_json (const_env p) g jdec (marshal_json (const_env p) g jenc v) tgt = (None, v).
+Proof. exact P_json_roundtrip. Qed.
+Print Assumptions C12_json_roundtrip.
 
 (* -text *)
 Theorem C12_text_codec : forall p T fl g tgt,
@@ -62,19 +75,23 @@ Theorem C12_text_codec : forall p T fl g tgt,
 Proof. exact P_text_codec. Qed.
 Print Assumptions C12_text_codec.
 
-(* -sql: Value() is the name as a string; Scan accepts exactly []byte holding a
-   declared name; any other driver value (nil, string, int64, float64, bool) and
-   any other byte string is an error that leaves the target unchanged *)
+(* -sql: Value() is the name as a Go string; Scan(Value(c)) = c literally; Scan
+   accepts a declared name as []byte or string; any other name and any other driver
+   value of the model (nil, int64, float64, bool, time.Time) is an error that leaves
+   the target unchanged *)
 Theorem C12_sql_codec : forall p T fl g tgt,
   enum_guard p T = true -> generate p T fl = Some g ->
   (forall n v, In (n, v) (declared T p) ->
      (exists n1, first_name (declared T p) v = Some n1
-                 /\ sql_value (const_env p) g v = SStr (trim_prefix n1 T)
-                 /\ scan (const_env p) g (SBytes (trim_prefix n1 T)) tgt = (None, v))
-     /\ scan (const_env p) g (SBytes (trim_prefix n T)) tgt = (None, v))
+                 /\ sql_value (const_env p) g v = SStr (trim_prefix n1 T))
+     /\ scan (const_env p) g (sql_value (const_env p) g v) tgt = (None, v)
+     /\ scan (const_env p) g (SBytes (trim_prefix n T)) tgt = (None, v)
+     /\ scan (const_env p) g (SStr (trim_prefix n T)) tgt = (None, v))
   /\ (forall s, ~ declared_name p T s ->
-        scan (const_env p) g (SBytes s) tgt = (Some ENotFound, tgt))
-  /\ (forall sv, (forall s, sv <> SBytes s) -> scan (const_env p) g sv tgt = (Some EBadType, tgt)).
+        scan (const_env p) g (SBytes s) tgt = (Some ENotFound, tgt)
+        /\ scan (const_env p) g (SStr s) tgt = (Some ENotFound, tgt))
+  /\ (forall sv, (forall s, sv <> SBytes s) -> (forall s, sv <> SStr s) ->
+        scan (const_env p) g sv tgt = (Some EBadType, tgt)).
 Proof. exact P_sql_codec. Qed.
 Print Assumptions C12_sql_codec.
 
@@ -89,7 +106,11 @@ Theorem C12_parse_enum : forall p T fl g,
 Proof. exact P_parse_enum. Qed.
 Print Assumptions C12_parse_enum.
 
-(* ParseEnum agrees with the generated ValueMap() for every string *)
+(* ParseEnum agrees with the generated ValueMap() for every string.  This holds by
+   construction of the model (parse_enum is the lookup in t_value_map, as enumer.go
+   looks up ValueMap()); it is tied to the code by the run, which compares ParseEnum
+   with the OBSERVED ValueMap().  The content-bearing statements are C12_parse_enum
+   and C12_try_parse_enum (against `declared`). *)
 Theorem C12_parse_enum_agrees_value_map : forall p T fl g s,
   enum_guard p T = true -> generate p T fl = Some g ->
   (forall v, parse_enum (const_env p) g s = (v, None) <->
@@ -115,20 +136,19 @@ Theorem C12_declared_name_decidable : forall p T fl g s,
 Proof. exact P_declared_name_decidable. Qed.
 Print Assumptions C12_declared_name_decidable.
 
-(* IsEnum[T, TV](v) for every integer v: true iff T(v) -- v wrapped to the
-   width of T's kind -- is a declared value / is in Values(); for v in T's
-   range iff v itself is declared *)
+(* IsEnum[T, TV](x) for EVERY integer x (of any argument type): true iff x is a
+   declared value, iff x is in Values() -- no wrap-around (IsEnum[int8-enum](259)
+   is false even if 3 is declared; K_is_enum_wrap, repaired) *)
 Theorem C12_is_enum : forall p T fl g x,
   enum_guard p T = true -> generate p T fl = Some g ->
-  (is_enum (const_env p) g x = true <-> In (wrap (g_kind g) x) (map snd (declared T p)))
-  /\ (is_enum (const_env p) g x = true <-> In (wrap (g_kind g) x) (t_values (const_env p) g))
-  /\ (in_range (g_kind g) x = true ->
-      (is_enum (const_env p) g x = true <-> In x (map snd (declared T p)))).
+  (is_enum (const_env p) g x = true <-> In x (map snd (declared T p)))
+  /\ (is_enum (const_env p) g x = true <-> In x (t_values (const_env p) g)).
 Proof. exact P_is_enum. Qed.
 Print Assumptions C12_is_enum.
 
-(* the conversion T(v): identity on T's range, always lands in the range, and
-   differs from v by a multiple of 2^width *)
+(* the conversion T(v) used inside IsEnum (x := T(value); representable iff it did not
+   change the number): identity on T's range, always lands in the range, and differs
+   from v by a multiple of 2^width *)
 Theorem C12_conversion_wraps : forall k x,
   (in_range k x = true -> wrap k x = x)
   /\ in_range k (wrap k x) = true
@@ -139,10 +159,10 @@ Print Assumptions C12_conversion_wraps.
 (* the boolean property evaluated on the implementation's observation
    (EnumCorr.Pb12: every codec call, round trip, ParseEnum/TryParseEnum/IsEnum
    call of the run) is implied by the theorems: the model's own observation
-   satisfies it inside the guard for ANY list of inputs (with the JSON codec
-   instance of the run, whose law is proved) *)
-Theorem C12_checked_property_follows : forall (c : case) (o : obs) k,
-  enum_guard (c_pkg c) (c_type c) = true -> kind_of_type (c_pkg c) (c_type c) = Some k ->
+   satisfies it inside the guard for ANY list of inputs and ANY JSON decoding of
+   them (the run uses the decoding encoding/json itself produced) *)
+Theorem C12_checked_property_follows : forall (c : case) (o : obs),
+  enum_guard (c_pkg c) (c_type c) = true ->
   f_bit (c_flags c) = false ->
   Pb12 c (model_obs c o) = true.
 Proof. exact Pb12_model_in_guard. Qed.
@@ -180,10 +200,10 @@ Example C12_example_generated :
     /\ t_value_map (const_env ex_pkg) g = [("Low", -2); ("High", 3); ("Max", 5); ("Mid", 10); ("Top", 30)]
     /\ parse_enum (const_env ex_pkg) g "Top" = (30, None)
     /\ parse_enum (const_env ex_pkg) g "LevelTop" = (0, Some ENotFound)
-    /\ is_enum (const_env ex_pkg) g (3 + 256) = true.
+    /\ is_enum (const_env ex_pkg) g 3 = true /\ is_enum (const_env ex_pkg) g (3 + 256) = false.
 Proof. eexists. conj; vm_compute; reflexivity. Qed.
 
-(* the JSON law is satisfiable: the concrete codec used by the correspondence
-   run (quote / unquote of strings without escapes) satisfies it for every string *)
+(* the round-trip hypothesis is satisfiable: the quote / unquote codec that the model side of
+   the correspondence run uses satisfies it for every string, hence on the declared names *)
 Example C12_json_law_instance : forall s, EnumCorr.jdec (EnumCorr.jenc s) = Some s.
 Proof. exact EnumCorr.jdec_jenc. Qed.
